@@ -572,7 +572,19 @@ func (op *ShellOperator) taskHandleHookRun(t task.Task) queue.TaskResult {
 			}
 		}
 		if shouldCombine {
-			combineResult := op.combineBindingContextForHook(op.TaskQueues, op.TaskQueues.GetByName(t.GetQueueName()), t, nil)
+			// A Synchronization for a group is combined only with the Synchronization tasks of the same
+			// group: other tasks of the hook (Synchronization of other bindings, possibly with
+			// executeHookOnSynchronization: false) keep their own rules.
+			var stopCombineFn func(tsk task.Task) bool
+			if isSynchronization {
+				stopCombineFn = func(tsk task.Task) bool {
+					nextMeta := task_metadata.HookMetadataAccessor(tsk)
+					return !nextMeta.IsSynchronization() ||
+						nextMeta.Group != hookMeta.Group ||
+						nextMeta.ExecuteOnSynchronization != hookMeta.ExecuteOnSynchronization
+				}
+			}
+			combineResult := op.combineBindingContextForHook(op.TaskQueues, op.TaskQueues.GetByName(t.GetQueueName()), t, stopCombineFn)
 			if combineResult != nil {
 				hookMeta.BindingContext = combineResult.BindingContexts
 				// Extra monitor IDs can be returned if several Synchronization for Group are combined.
